@@ -16,11 +16,13 @@ PROPS["C16"] = {
              "in the start key — sign(region.Compare(a,b)) equals the lexicographic order of (table, start key, id); Compare is "
              "antisymmetric, returns 0 only on identical names, is transitive; first regions and lookup search keys sort as the "
              "statement says. Decided by the solver on every path of the real Compare/findCommaFromEnd.",
-    "outside": "names longer than L bytes; malformed names (fewer than two commas: documented panic); ids containing a comma",
+    "outside": "names longer than L bytes (compare_long_keys: fixed table 't', start keys of KL-1 / KL arbitrary bytes, one-digit ids); malformed names (fewer than two commas: documented panic); ids containing a comma",
     "assumptions": ["names are well-formed: table and id non-empty, at least two commas, no comma in table or id"],
     "jobs": [
         {"name": "compare_oracle", "pkg": "region", "entry": "VerifCompareOracle", "reach": ["compared"],
          "params": {"quick": {"L": 7}, "thorough": {"L": 11}}},
+        {"name": "compare_long_keys", "pkg": "region", "entry": "VerifCompareLongKeys", "reach": ["compared-long"],
+         "params": {"quick": {"KL": 9}, "thorough": {"KL": 17}}},
         {"name": "compare_test_vectors", "pkg": "region", "entry": "VerifCompareTestVectors", "reach": ["vectors"], "sample_pass": 1,
          "params": {"quick": {}, "thorough": {}}},
         {"name": "compare_antisym", "pkg": "region", "entry": "VerifCompareAntisym",
@@ -133,8 +135,10 @@ PROPS["C08"] = {
          "params": {"quick": {"K": 2, "KL": 1, "T": 2}, "thorough": {"K": 3, "KL": 1, "T": 3}}},
         {"name": "cache_put_longkeys", "pkg": "root", "entry": "VerifCachePut", "reach": ["replaced", "rejected", "already-cached"],
          "params": {"thorough": {"K": 2, "KL": 2, "T": 1}}},
+        {"name": "cache_put_namespace", "pkg": "root", "entry": "VerifCachePutNamespace", "reach": ["replaced", "rejected", "already-cached"],
+         "params": {"quick": {"K": 2, "KL": 1, "T": 2}, "thorough": {"K": 3, "KL": 1, "T": 2}}},
         {"name": "cache_put_concurrent", "pkg": "root", "entry": "VerifCachePutConcurrent", "reach": ["raced"],
-         "preempts": {"quick": 2, "thorough": 3}, "params": {"quick": {}, "thorough": {}}},
+         "preempts": {"quick": 2, "thorough": 3}, "params": {"quick": {"RACE": 1}, "thorough": {"RACE": 1}}},
         {"name": "cache_del", "pkg": "root", "entry": "VerifCacheDel", "reach": ["deleted"],
          "params": {"quick": {"K": 2, "KL": 1, "T": 2}, "thorough": {"K": 3, "KL": 1, "T": 2}}},
     ],
@@ -157,6 +161,8 @@ PROPS["C01"] = {
          "params": {"quick": {"K": 2, "KL": 1, "T": 2, "KEYL": 2}, "thorough": {"K": 3, "KL": 1, "T": 3, "KEYL": 2}}},
         {"name": "route_from_cache_longkeys", "pkg": "root", "entry": "VerifRouteFromCache", "reach": ["hit", "miss"],
          "params": {"quick": {"K": 2, "KL": 2, "T": 1, "KEYL": 2}, "thorough": {"K": 2, "KL": 2, "T": 2, "KEYL": 3}}},
+        {"name": "route_concurrent", "pkg": "root", "entry": "VerifRouteConcurrent", "reach": ["routed-concurrently"],
+         "preempts": {"quick": 2, "thorough": 3}, "params": {"quick": {"RACE": 1}, "thorough": {"RACE": 1}}},
         {"name": "addressing", "pkg": "root", "entry": "VerifAddressing", "reach": ["addressed"],
          "params": {"quick": {"KL": 2, "KEYL": 3}, "thorough": {"KL": 3, "KEYL": 4}}},
         {"name": "meta_lookup", "pkg": "root", "entry": "VerifMetaLookup", "reach": ["accepted", "rejected", "not-found"],
@@ -185,7 +191,11 @@ PROPS["C07"] = {
          "params": {"quick": {"PROP": 7, "N": 2, "TRIES": 3, "LOOKUPFAIL": 0, "CANCEL": 0}, "thorough": {"PROP": 7, "N": 3, "TRIES": 3, "LOOKUPFAIL": 0, "CANCEL": 0}}},
         {"name": "sendbatch_relocate_fails", "pkg": "root", "entry": "VerifSendBatch", "stubs": BATCH_STUBS, "reach": ["returned"],
          "params": {"quick": {"PROP": 7, "N": 2, "TRIES": 2, "LOOKUPFAIL": 1, "CANCEL": 0}, "thorough": {"PROP": 7, "N": 3, "TRIES": 2, "LOOKUPFAIL": 1, "CANCEL": 0}}},
+        {"name": "sendbatch_own_contexts", "pkg": "root", "entry": "VerifSendBatchOwnContexts", "stubs": BATCH_STUBS, "reach": ["returned", "own-context-done-before"], "native_retries": 30,
+         "preempts": {"quick": 1, "thorough": 2},
+         "params": {"quick": {"PROP": 7, "N": 2, "TRIES": 1, "LOOKUPFAIL": 0, "CANCEL": 0}, "thorough": {"PROP": 7, "N": 2, "TRIES": 2, "LOOKUPFAIL": 0, "CANCEL": 0}}},
         {"name": "sendbatch_cancel", "pkg": "root", "entry": "VerifSendBatch", "stubs": BATCH_STUBS, "reach": ["returned"], "native_retries": 30,
+         "preempts": {"quick": 1, "thorough": 2},
          "params": {"quick": {"PROP": 7, "N": 2, "TRIES": 2, "LOOKUPFAIL": 0, "CANCEL": 1}, "thorough": {"PROP": 7, "N": 3, "TRIES": 2, "LOOKUPFAIL": 1, "CANCEL": 1}}},
     ],
 }
@@ -229,6 +239,8 @@ PROPS["C06"] = {
          "params": {"quick": {"ROWS": 2, "REGIONS": 2, "RESP": 3, "NROWS": 2, "REVERSED": 0, "KEYL": 1}, "thorough": {"ROWS": 3, "REGIONS": 2, "RESP": 3, "NROWS": 2, "REVERSED": 0, "KEYL": 1}}},
         {"name": "scan_reversed", "pkg": "root", "entry": "VerifScan", "reach": ["scanned"],
          "params": {"quick": {"ROWS": 2, "REGIONS": 2, "RESP": 3, "NROWS": 2, "REVERSED": 1, "KEYL": 1}, "thorough": {"ROWS": 3, "REGIONS": 2, "RESP": 3, "NROWS": 2, "REVERSED": 1, "KEYL": 1}}},
+        {"name": "scan_forward_id0", "pkg": "root", "entry": "VerifScanID0", "reach": ["scanned"],
+         "params": {"quick": {"ROWS": 2, "REGIONS": 2, "RESP": 2, "NROWS": 2, "REVERSED": 0, "KEYL": 1}, "thorough": {"ROWS": 2, "REGIONS": 2, "RESP": 3, "NROWS": 2, "REVERSED": 0, "KEYL": 1}}},
         {"name": "scan_reversed_longkeys", "pkg": "root", "entry": "VerifScan", "reach": ["scanned"],
          "params": {"quick": {"ROWS": 1, "REGIONS": 2, "RESP": 2, "NROWS": 2, "REVERSED": 1, "KEYL": 2}, "thorough": {"ROWS": 2, "REGIONS": 2, "RESP": 2, "NROWS": 2, "REVERSED": 1, "KEYL": 2}}},
         {"name": "scan_forward_longkeys", "pkg": "root", "entry": "VerifScan", "reach": ["scanned"],
@@ -246,15 +258,17 @@ PROPS["C14"] = {
     "outside": "lease expiry on the server; the renew loop; scans created with the internal CloseScanner option over more than one response",
     "assumptions": ["model server as in C06"],
     "jobs": [
-        {"name": "scan_endings_forward", "pkg": "root", "entry": "VerifScanEndings", "reach": ["ended", "closed-early", "cancelled", "failed"],
+        {"name": "scan_endings_forward", "pkg": "root", "entry": "VerifScanEndings", "reach": ["ended", "closed-early", "cancelled", "failed", "failed-then-cancelled"],
          "params": {"quick": {"ROWS": 2, "REGIONS": 2, "RESP": 3, "NROWS": 2, "REVERSED": 0, "KEYL": 1}, "thorough": {"ROWS": 3, "REGIONS": 2, "RESP": 3, "NROWS": 2, "REVERSED": 0, "KEYL": 1}}},
-        {"name": "scan_endings_reversed", "pkg": "root", "entry": "VerifScanEndings", "reach": ["ended", "closed-early", "cancelled", "failed"],
+        {"name": "scan_endings_reversed", "pkg": "root", "entry": "VerifScanEndings", "reach": ["ended", "closed-early", "cancelled", "failed", "failed-then-cancelled"],
          "params": {"quick": {"ROWS": 2, "REGIONS": 2, "RESP": 2, "NROWS": 2, "REVERSED": 1, "KEYL": 1}, "thorough": {"ROWS": 3, "REGIONS": 2, "RESP": 3, "NROWS": 2, "REVERSED": 1, "KEYL": 1}}},
+        {"name": "scan_cancel_outstanding", "steps": 60000, "pkg": "root", "entry": "VerifCancelScan", "reach": ["cancelled"], "watchdog": 20,
+         "params": {"quick": {"NROWS": 1}, "thorough": {"NROWS": 1}}},
     ],
 }
 
 PROPS["C18"] = {
-    "files": ["region/fakes.go", "region/c18_inflight.go"],
+    "files": ["region/fakes.go", "region/c18_inflight.go", "region/c20_dialonce.go"],
     "claim": "For 1..CALLS requests on one connection, every assignment of {answered before Write returns, answered before the next "
              "request, answered late, never answered} to the requests: when the connection is quiescent the in-flight counter equals the "
              "number of written-and-unanswered requests and the read deadline is armed iff that number is > 0 (so a silent server is "
@@ -265,8 +279,10 @@ PROPS["C18"] = {
     "jobs": [
         {"name": "inflight", "timeout_s": {"quick": 600, "thorough": 3000}, "pkg": "region", "entry": "VerifInFlight", "stubs": RECV_STUBS, "reach": ["idle", "waiting"],
          "params": {"quick": {"CALLS": 2, "protoMax": 1, "protoFixed": 1, "TIMEND": 1}, "thorough": {"CALLS": 3, "protoMax": 1, "protoFixed": 1, "TIMEND": 1}}},
+        {"name": "dial_then_idle", "pkg": "region", "entry": "VerifDialIdle", "reach": ["idle-after-dial", "dial-deadline"],
+         "params": {"quick": {"protoMax": 1, "protoFixed": 1}, "thorough": {"protoMax": 1, "protoFixed": 1}}},
         {"name": "inflight_concurrent", "pkg": "region", "entry": "VerifInFlightConcurrent", "stubs": RECV_STUBS, "reach": ["waiting"],
-         "preempts": {"quick": 2, "thorough": 3}, "params": {"quick": {}, "thorough": {}}},
+         "preempts": {"quick": 2, "thorough": 3}, "params": {"quick": {"RACE": 1}, "thorough": {"RACE": 1}}},
     ],
 }
 
@@ -283,9 +299,12 @@ PROPS["C03"] = {
                     "the stated number of pre-emptive switches per run"],
     "jobs": [
         {"name": "conn_failure", "pkg": "region", "entry": "VerifConnFailure", "reach": ["failed"], "no_native": False, "native_retries": 3,
-         "preempts": {"quick": 1, "thorough": 2}, "params": {"quick": {"K": 8, "protoMax": 1, "protoFixed": 1}, "thorough": {"K": 12, "protoMax": 1, "protoFixed": 1}}},
+         "preempts": {"quick": 1, "thorough": 2}, "params": {"quick": {"RACE": 1, "K": 8, "protoMax": 1, "protoFixed": 1}, "thorough": {"RACE": 1, "K": 12, "protoMax": 1, "protoFixed": 1}}},
         {"name": "failure_concurrent_reader", "pkg": "region", "entry": "VerifFailureConcurrentReader", "stubs": RECV_STUBS, "reach": ["completed"],
-         "preempts": {"quick": 2, "thorough": 3}, "params": {"quick": {"K": 4, "protoMax": 1, "protoFixed": 1}, "thorough": {"K": 5, "protoMax": 1, "protoFixed": 1}}},
+         "preempts": {"quick": 2, "thorough": 3}, "params": {"quick": {"RACE": 1, "K": 4, "protoMax": 1, "protoFixed": 1}, "thorough": {"RACE": 1, "K": 5, "protoMax": 1, "protoFixed": 1}}},
+        # failure "by read timeout" presupposes that the timeout is armed whenever a request is outstanding (shared with C18)
+        {"name": "read_timeout_armed", "pkg": "region", "entry": "VerifInFlightConcurrent", "stubs": RECV_STUBS, "reach": ["waiting"],
+         "preempts": {"quick": 2, "thorough": 3}, "params": {"quick": {"RACE": 1}, "thorough": {"RACE": 1}}},
         {"name": "failure_with_responses", "pkg": "region", "entry": "VerifFailureWithResponses", "stubs": RECV_STUBS, "reach": ["completed"],
          "params": {"quick": {"K": 6, "protoMax": 1, "protoFixed": 1}, "thorough": {"K": 8, "protoMax": 1, "protoFixed": 1}}},
     ],
@@ -313,12 +332,18 @@ PROPS["C02"] = {
         {"name": "multi_not_shared", "pkg": "region", "entry": "VerifMultiNotShared", "stubs": RECV_STUBS, "reach": ["distinct"], "native_retries": 3,
          "params": {"quick": {"protoMax": 1, "protoFixed": 1}, "thorough": {"protoMax": 1, "protoFixed": 1}}},
         {"name": "concurrent_register", "pkg": "region", "entry": "VerifConcurrentRegister", "reach": ["registered"],
-         "preempts": {"quick": 2, "thorough": 3}, "params": {"quick": {}, "thorough": {}}},
+         "preempts": {"quick": 2, "thorough": 3}, "params": {"quick": {"RACE": 1}, "thorough": {"RACE": 1}}},
     ],
 }
 
 FRAME_STUBS = {"google.golang.org/protobuf/proto.Size": "github.com/tsuna/gohbase/region.vSize",
                "(google.golang.org/protobuf/proto.MarshalOptions).MarshalAppend": "github.com/tsuna/gohbase/region.vMarshalAppend"}
+
+# C15: concurrent use of the one compressor of a connection (needs the frame-level stubs of C05)
+PROPS["C15"]["files"] = ["region/fakes.go", "region/c02_correlation.go", "region/c15_compressor.go", "region/c05_frames.go"]
+PROPS["C15"]["jobs"].append(
+    {"name": "compress_concurrent", "pkg": "region", "entry": "VerifCompressConcurrent", "stubs": FRAME_STUBS, "reach": ["two-compressing-senders"],
+     "preempts": {"quick": 2, "thorough": 3}, "params": {"quick": {"RACE": 1}, "thorough": {"RACE": 1}}})
 
 PROPS["C05"] = {
     "files": ["region/fakes.go", "region/c02_correlation.go", "region/c15_compressor.go", "region/c05_frames.go"],
@@ -335,10 +360,12 @@ PROPS["C05"] = {
     "jobs": [
         {"name": "single_frames", "timeout_s": {"quick": 600, "thorough": 2400}, "pkg": "region", "entry": "VerifSingleFrames", "stubs": FRAME_STUBS, "reach": ["frames"], "native_retries": 6,
          "params": {"quick": {"CALLS": 2}, "thorough": {"CALLS": 3}}},
+        {"name": "resend_after_region_change", "pkg": "region", "entry": "VerifResend", "stubs": FRAME_STUBS, "reach": ["resent"],
+         "params": {"quick": {}, "thorough": {}}},
         {"name": "multi_frame", "pkg": "region", "entry": "VerifMultiFrame", "stubs": FRAME_STUBS, "reach": ["multi"], "native_retries": 10,
          "params": {"quick": {"CALLS": 3}, "thorough": {"CALLS": 4}}},
         {"name": "concurrent_senders", "pkg": "region", "entry": "VerifConcurrentSenders", "stubs": FRAME_STUBS, "reach": ["two-senders"],
-         "preempts": {"quick": 2, "thorough": 3}, "params": {"quick": {}, "thorough": {}}},
+         "preempts": {"quick": 2, "thorough": 3}, "params": {"quick": {"RACE": 1}, "thorough": {"RACE": 1}}},
         {"name": "hello", "pkg": "region", "entry": "VerifHello", "reach": ["hello"], "params": {"quick": {"protoMax": 3}, "thorough": {"protoMax": 6}}},
     ],
 }
@@ -354,13 +381,15 @@ PROPS["C20"] = {
     "assumptions": ["fake region clients at the hrpc.RegionClient seam for the establisher harness (probe always answered)"],
     "jobs": [
         {"name": "client_cache_ops", "pkg": "root", "entry": "VerifClientCacheOps", "reach": ["reused", "declared-dead"],
-         "params": {"quick": {"STEPS": 4}, "thorough": {"STEPS": 6}}},
+         "params": {"quick": {"STEPS": 4}, "thorough": {"STEPS": 5}}},
         {"name": "establish_shared", "pkg": "root", "entry": "VerifEstablishShared", "reach": ["established"],
-         "preempts": {"quick": 2, "thorough": 3}, "params": {"quick": {"R": 2}, "thorough": {"R": 3}}},
+         "preempts": {"quick": 2, "thorough": 3}, "params": {"quick": {"RACE": 1, "R": 2}, "thorough": {"RACE": 1, "R": 3}}},
         {"name": "late_failure_report", "pkg": "root", "entry": "VerifLateFailureReport", "reach": ["late-report"],
-         "preempts": {"quick": 1, "thorough": 2}, "params": {"quick": {}, "thorough": {}}},
+         "preempts": {"quick": 1, "thorough": 2}, "params": {"quick": {"RACE": 1}, "thorough": {"RACE": 1}}},
+        {"name": "dial_late_connection", "pkg": "region", "entry": "VerifDialLate", "reach": ["late-dial"],
+         "preempts": {"quick": 2, "thorough": 3}, "params": {"quick": {"RACE": 1, "protoMax": 1, "protoFixed": 1}, "thorough": {"RACE": 1, "protoMax": 1, "protoFixed": 1}}},
         {"name": "dial_once", "pkg": "region", "entry": "VerifDialOnce", "reach": ["dialled"],
-         "preempts": {"quick": 2, "thorough": 3}, "params": {"quick": {"CALLERS": 2, "protoMax": 1, "protoFixed": 1}, "thorough": {"CALLERS": 3, "protoMax": 1, "protoFixed": 1}}},
+         "preempts": {"quick": 2, "thorough": 3}, "params": {"quick": {"RACE": 1, "CALLERS": 2, "protoMax": 1, "protoFixed": 1}, "thorough": {"RACE": 1, "CALLERS": 3, "protoMax": 1, "protoFixed": 1}}},
     ],
 }
 
@@ -375,18 +404,21 @@ PROPS["C09"] = {
              "server-error or retry-later) followed by a stable cluster, with or without a known address: no panic (in particular no "
              "second MarkAvailable = close of nil channel), the establisher terminates, the region's waiters are released, no live "
              "cached region is left unavailable or without a connection, no goroutine is left.",
-    "outside": "DATA RACES (not decidable by this technique: the engine assumes sequential consistency between synchronisation "
-               "points); more than FAULTS faults per outage; more than two concurrent callers; real meta scans (lookupRegion is cut)",
+    "outside": "data races other than the ones the engine's happens-before analysis sees on the explored schedules (RACE=1 jobs: vector "
+               "clocks over mutex/RWMutex/channel/Once/WaitGroup/atomic/Pool/context/timer/go edges; unordered conflicting loads, stores and "
+               "map operations in repository code are candidates, reported only when Go's own race detector confirms the same pair of "
+               "functions in the natively compiled harness) - the engine explores sequentially consistent executions only, so weak-memory "
+               "effects are outside; more than FAULTS faults per outage; more than two concurrent callers; real meta scans (lookupRegion is cut)",
     "assumptions": ["(*client).lookupRegion is cut (scripted hbase:meta / ZooKeeper)", "fake region clients; sleepAndIncreaseBackoff via the repository's own override hook"],
     "jobs": [
         {"name": "establish", "steps": 40000, "timeout_s": {"quick": 300, "thorough": 1500}, "pkg": "root", "entry": "VerifEstablish", "stubs": EST_STUBS, "reach": ["re-established", "replaced-or-gone"],
          "params": {"quick": {"FAULTS": 2}, "thorough": {"FAULTS": 3}}},
         {"name": "two_callers", "steps": 40000, "timeout_s": {"quick": 300, "thorough": 1500}, "pkg": "root", "entry": "VerifTwoCallers", "stubs": EST_STUBS, "reach": ["both-returned"],
-         "preempts": {"quick": 1, "thorough": 2}, "params": {"quick": {"FAULTS": 1, "BUSY": 1, "SAME": 0}, "thorough": {"FAULTS": 1, "BUSY": 1, "SAME": 0}}},
+         "preempts": {"quick": 1, "thorough": 2}, "params": {"quick": {"FAULTS": 1, "BUSY": 1, "SAME": 0, "RACE": 1}, "thorough": {"FAULTS": 1, "BUSY": 1, "SAME": 0, "RACE": 1}}},
         {"name": "two_callers_idle", "steps": 40000, "timeout_s": {"quick": 300, "thorough": 1500}, "pkg": "root", "entry": "VerifTwoCallers", "stubs": EST_STUBS, "reach": ["both-returned"],
-         "preempts": {"quick": 1, "thorough": 2}, "params": {"quick": {"FAULTS": 1, "BUSY": 0, "SAME": 0}, "thorough": {"FAULTS": 2, "BUSY": 0, "SAME": 0}}},
+         "preempts": {"quick": 1, "thorough": 2}, "params": {"quick": {"FAULTS": 1, "BUSY": 0, "SAME": 0, "RACE": 1}, "thorough": {"FAULTS": 2, "BUSY": 0, "SAME": 0, "RACE": 1}}},
         {"name": "concurrent_failure_reports", "pkg": "root", "entry": "VerifConcurrentFailureReports", "stubs": EST_STUBS, "reach": ["reported"],
-         "preempts": {"quick": 2, "thorough": 3}, "params": {"quick": {"FAULTS": 0}, "thorough": {"FAULTS": 0}}},
+         "preempts": {"quick": 2, "thorough": 3}, "params": {"quick": {"FAULTS": 0, "RACE": 1}, "thorough": {"FAULTS": 0, "RACE": 1}}},
         {"name": "two_callers_same_region", "steps": 40000, "timeout_s": {"thorough": 3000}, "pkg": "root", "entry": "VerifTwoCallers", "stubs": EST_STUBS, "reach": ["both-returned"],
          "preempts": {"thorough": 1}, "params": {"thorough": {"FAULTS": 2, "BUSY": 0, "SAME": 1}}},
     ],
@@ -405,10 +437,12 @@ PROPS["C04"] = {
                "region level in C11's receive jobs for the listed classes)",
     "assumptions": ["(*client).lookupRegion is cut (scripted hbase:meta / ZooKeeper)", "fake region clients; back-off via the repository's override hook"],
     "jobs": [
+        {"name": "establish_faults", "steps": 40000, "timeout_s": {"quick": 300, "thorough": 1500}, "pkg": "root", "entry": "VerifEstablish", "stubs": EST_STUBS, "reach": ["re-established", "replaced-or-gone"],
+         "params": {"quick": {"FAULTS": 2}, "thorough": {"FAULTS": 4}}},
         {"name": "sendrpc_faults", "steps": 40000, "timeout_s": {"quick": 300, "thorough": 1500}, "pkg": "root", "entry": "VerifSendRPCFaults", "stubs": EST_STUBS, "reach": ["succeeded", "table-gone"],
          "preempts": {"quick": 1, "thorough": 2}, "params": {"quick": {"FAULTS": 2}, "thorough": {"FAULTS": 3}}},
         {"name": "two_callers_busy", "steps": 40000, "timeout_s": {"quick": 300, "thorough": 1500}, "pkg": "root", "entry": "VerifTwoCallers", "stubs": EST_STUBS, "reach": ["both-returned"],
-         "preempts": {"quick": 1, "thorough": 2}, "params": {"quick": {"FAULTS": 1, "BUSY": 1, "SAME": 0}, "thorough": {"FAULTS": 1, "BUSY": 1, "SAME": 0}}},
+         "preempts": {"quick": 1, "thorough": 2}, "params": {"quick": {"RACE": 1, "FAULTS": 1, "BUSY": 1, "SAME": 0, "RACE": 1}, "thorough": {"RACE": 1, "FAULTS": 1, "BUSY": 1, "SAME": 0, "RACE": 1}}},
         {"name": "classify_exception", "pkg": "region", "entry": "VerifClassify", "reach": ["retry-later", "region", "server", "other"],
          "params": {"quick": {"L": 70}, "thorough": {"L": 90}}},
         {"name": "region_moved", "steps": 40000, "pkg": "root", "entry": "VerifRegionMoved", "stubs": EST_STUBS, "reach": ["moved"],
@@ -429,7 +463,7 @@ PROPS["C17"] = {
              "retry-later answer is followed by one wait, waits follow the schedule in order, at most two connection-level failures "
              "are retried without a wait.",
     "outside": "wall-clock accuracy of time.After; request rate as a real-time quantity; more than ATTEMPTS consecutive failures; the "
-               "pacing of establishRegion / lookupRegion loops is asserted structurally only (they call the same function)",
+               "the lookupAllRegions loop (same shape as lookupRegion, which lookup_pacing runs against a failing / silent ZooKeeper)",
     "assumptions": ["time.After is modelled: it records the requested duration and may fire at any later scheduling point",
                     "getRegionAndClientForRPC is cut for the pacing jobs (the region is always found)"],
     "jobs": [
@@ -447,13 +481,15 @@ PROPS["C17"] = {
          "params": {"quick": {"ATTEMPTS": 4, "BATCH": 1}, "thorough": {"ATTEMPTS": 6, "BATCH": 1}}},
         {"name": "establish_pacing", "steps": 40000, "pkg": "root", "entry": "VerifEstablishPacing", "stubs": EST_STUBS, "reach": ["paced"],
          "params": {"quick": {"ATTEMPTS": 3, "FAULTS": 0}, "thorough": {"ATTEMPTS": 6, "FAULTS": 0}}},
+        {"name": "lookup_pacing", "steps": 40000, "pkg": "root", "entry": "VerifLookupPacing", "reach": ["paced"], "native_retries": 10, "preempts": {"quick": 1, "thorough": 2},
+         "params": {"quick": {"ATTEMPTS": 3}, "thorough": {"ATTEMPTS": 5}}},
         {"name": "batch_pacing_two_calls", "pkg": "root", "entry": "VerifBatchPacing", "stubs": RETRY_STUBS2, "reach": ["paced", "waited"],
          "params": {"quick": {"ATTEMPTS": 3}, "thorough": {"ATTEMPTS": 5}}},
     ],
 }
 
 PROPS["C19"] = {
-    "files": EST_FILES + ["root/c19_close.go"], "native_files": ["root/c09_establish_native.go"], "native_cuts": EST_CUTS,
+    "files": EST_FILES + ["root/c19_close.go", "root/c06_scanner.go"], "native_files": ["root/c09_establish_native.go"], "native_cuts": EST_CUTS,
     "claim": "Close (twice) issued at every scheduling point within the delay bound relative to a request that waits on a region whose "
              "establisher is before / during / after its lookup, dial and probe (region cached or unknown, address known or not): the "
              "request returns success or ErrClientClosed; every region client ever created is closed; no goroutine remains; later "
@@ -462,9 +498,11 @@ PROPS["C19"] = {
     "assumptions": ["(*client).lookupRegion is cut: after Close it answers ErrClientClosed as the real meta lookup does through SendRPC"],
     "jobs": [
         {"name": "close_race", "steps": 40000, "timeout_s": {"quick": 400, "thorough": 1800}, "pkg": "root", "entry": "VerifCloseRace", "stubs": EST_STUBS, "reach": ["closed"],
-         "preempts": {"quick": 2, "thorough": 3}, "params": {"quick": {"FAULTS": 0, "ONLINE": 0}, "thorough": {"FAULTS": 1, "ONLINE": 0}}},
+         "preempts": {"quick": 2, "thorough": 3}, "params": {"quick": {"RACE": 1, "FAULTS": 0, "ONLINE": 0}, "thorough": {"RACE": 1, "FAULTS": 1, "ONLINE": 0}}},
+        {"name": "close_with_renewing_scanner", "steps": 40000, "pkg": "root", "entry": "VerifCloseWithRenewingScanner", "reach": ["renewer-stopped"], "max_ticks": 3,
+         "params": {"quick": {}, "thorough": {}}},
         {"name": "close_race_online", "steps": 40000, "timeout_s": {"quick": 400, "thorough": 1800}, "pkg": "root", "entry": "VerifCloseRace", "stubs": EST_STUBS, "reach": ["closed"],
-         "preempts": {"quick": 1, "thorough": 2}, "params": {"quick": {"FAULTS": 2, "ONLINE": 1}, "thorough": {"FAULTS": 2, "ONLINE": 1}}},
+         "preempts": {"quick": 1, "thorough": 2}, "params": {"quick": {"RACE": 1, "FAULTS": 2, "ONLINE": 1}, "thorough": {"RACE": 1, "FAULTS": 2, "ONLINE": 1}}},
     ],
 }
 
@@ -476,11 +514,13 @@ PROPS["C13"] = {
              "silent ZooKeeper (real lookupRegion / metaLookup / scanner / zkLookup), busy send queue of the real region client — and "
              "return the context error (the batch: failed, every unanswered call marked) after the context of the request, of the batch "
              "or of the calls (shared or distinct) is cancelled, with no further blocking.",
-    "outside": "the numeric delay; deadline expiry (only cancellation is explored; both close the same Done channel); goroutines blocked "
+    "outside": "the numeric delay; deadline expiry of batches and scans (explored for the single request only: deadline_single); goroutines blocked "
                "inside the kernel (conn.Write); states reachable only through fault scripts longer than one fault",
     "assumptions": ["a goroutine blocked inside the ZooKeeper client library is left behind (outside the client's control)"],
     "jobs": [
         {"name": "cancel_single", "steps": 60000, "pkg": "root", "entry": "VerifCancelSingle", "reach": ["cancelled"], "watchdog": 20,
+         "params": {"quick": {}, "thorough": {}}},
+        {"name": "deadline_single", "steps": 60000, "pkg": "root", "entry": "VerifDeadlineSingle", "reach": ["expired"], "watchdog": 20,
          "params": {"quick": {}, "thorough": {}}},
         {"name": "cancel_batch", "steps": 60000, "pkg": "root", "entry": "VerifCancelBatch", "reach": ["cancelled", "call-context-cancelled"], "watchdog": 20,
          "params": {"quick": {}, "thorough": {}}},
